@@ -335,13 +335,7 @@ func (c *Ctx) globalUsers(P, rule, name string, allowed []string, why string) Ob
 			continue
 		}
 		o.Facts++
-		n := FnName(fn)
-		okc := false
-		for _, a := range allowed {
-			if c.E1.re("^(?:" + a + ")$").MatchString(n) {
-				okc = true
-			}
-		}
+		okc, n := c.allowedFn(fn, allowed)
 		if !okc {
 			o.fail(c.A.FnPos(fn), "%s uses %s", n, name)
 		}
